@@ -35,6 +35,7 @@ use identity_jose::jws::Decoder;
 use identity_jose::jws::JwsAlgorithm;
 use identity_jose::jws::JwsValidationItem;
 use identity_jose::jws::JwsVerifier;
+use identity_jose::jws::JwsVerifierFn;
 use identity_jose::jws::SignatureVerificationError;
 use identity_jose::jws::SignatureVerificationErrorKind;
 use identity_jose::jws::VerificationInput;
@@ -44,6 +45,7 @@ use serde::Serialize;
 use serde_json::json;
 use serde_json::Value;
 use std::cell::RefCell;
+use std::rc::Rc;
 
 #[derive(Debug, Clone, Copy, PartialEq, Eq, Serialize, Deserialize)]
 pub enum Route {
@@ -106,9 +108,24 @@ struct Call {
 }
 
 /// Records what `JwsValidationItem::verify` hands to the verifier and answers as told.
+#[derive(Clone)]
 struct Recorder {
   answer_ok: bool,
-  calls: RefCell<Vec<Call>>,
+  /// Which error kind a refusing verifier answers with (index into `REFUSALS`).
+  refusal: usize,
+  calls: Rc<RefCell<Vec<Call>>>,
+}
+
+const REFUSALS: usize = 6;
+fn refusal(i: usize) -> SignatureVerificationErrorKind {
+  match i % REFUSALS {
+    0 => SignatureVerificationErrorKind::InvalidSignature,
+    1 => SignatureVerificationErrorKind::UnsupportedAlg,
+    2 => SignatureVerificationErrorKind::Unspecified,
+    3 => SignatureVerificationErrorKind::UnsupportedKeyType,
+    4 => SignatureVerificationErrorKind::UnsupportedKeyParams,
+    _ => SignatureVerificationErrorKind::KeyDecodingFailure,
+  }
 }
 
 impl JwsVerifier for Recorder {
@@ -122,7 +139,7 @@ impl JwsVerifier for Recorder {
     if self.answer_ok {
       Ok(())
     } else {
-      Err(SignatureVerificationErrorKind::InvalidSignature.into())
+      Err(refusal(self.refusal).into())
     }
   }
 }
@@ -317,17 +334,35 @@ fn check_offered(form: Form, token: &[u8], detached: Option<&[u8]>, key_alg: &Op
     }
     let key: Jwk = fixture!(serde_json::from_value(key_json.clone()), "caller key");
     let key_as_library_prints = fixture!(serde_json::to_value(&key), "caller key to JSON");
+    // the refusal kind and the way the verifier is handed over (as itself, as a closure, boxed) follow from the token
     let recorder = Recorder {
       answer_ok: verifier_ok,
-      calls: RefCell::new(Vec::new()),
+      refusal: token.len() % REFUSALS,
+      calls: Rc::new(RefCell::new(Vec::new())),
     };
+    if !verifier_ok {
+      obs.label(format!("verifier-refuses/{}", refusal(recorder.refusal)));
+    }
     let pre_alg = want_alg.is_some();
     let pre_key = key_alg.is_none() || *key_alg == want_alg;
-    let result = match catch(|| item.verify(&recorder, &key)) {
+    let handed_over = (token.len() / REFUSALS) % 3;
+    obs.label(["verifier-as/impl", "verifier-as/JwsVerifierFn", "verifier-as/Box-dyn"][handed_over]);
+    let result = match catch(|| match handed_over {
+      0 => item.verify(&recorder, &key),
+      1 => {
+        let r = recorder.clone();
+        item.verify(&JwsVerifierFn::from(move |input: VerificationInput, k: &Jwk| r.verify(input, k)), &key)
+      }
+      _ => {
+        let r = recorder.clone();
+        let boxed: Box<dyn JwsVerifier> = Box::new(JwsVerifierFn::from(move |input: VerificationInput, k: &Jwk| r.verify(input, k)));
+        item.verify(&boxed, &key)
+      }
+    }) {
       Ok(r) => r,
       Err(p) => return obs.fail("verify-panics", format!("{ctx}: verify panicked: {}", p.msg)),
     };
-    let calls = recorder.calls.into_inner();
+    let calls = std::mem::take(&mut *recorder.calls.borrow_mut());
     for c in &calls {
       vensure!(
         obs,
@@ -424,10 +459,24 @@ fn check_signed(spec: &SignedSpec, obs: &mut Obs) -> CheckResult {
   let mut repinned = built.jwk.clone();
   repinned["alg"] = json!(if spec.alg == SigAlg::Ed25519 { "ES256" } else { "EdDSA" });
   let repinned_key: Jwk = fixture!(serde_json::from_value(repinned), "re-pinned JWK");
+  let own_name = spec.alg.jws_name();
+  let mut near_pins: Vec<Jwk> = Vec::new();
+  for pin in [format!("{own_name}K"), own_name[..own_name.len() - 1].to_string(), String::new()] {
+    let mut k = built.jwk.clone();
+    k["alg"] = json!(pin);
+    near_pins.push(fixture!(serde_json::from_value(k), "near-pinned JWK"));
+  }
   let what = format!("{} token {:?}", spec.form.name(), lossy(&built.token));
 
   // (key, must verify): caller's key, a different key of the same type, the right key pinned to another alg
-  for (label, k, must_verify) in [("own", &key, true), ("other", &other_key, false), ("repinned", &repinned_key, false)] {
+  for (label, k, must_verify) in [
+    ("own", &key, true),
+    ("other", &other_key, false),
+    ("repinned", &repinned_key, false),
+    ("pinned-extension", &near_pins[0], false),
+    ("pinned-prefix", &near_pins[1], false),
+    ("pinned-empty", &near_pins[2], false),
+  ] {
     let items = match decode(spec.form, &built.token, built.detached.as_deref()) {
       Ok(Ok(v)) => v,
       Ok(Err(e)) => return Err(Viol::fixture(format!("{what}: own token rejected at decode: {e}"))),
@@ -648,6 +697,15 @@ fn check_config(route: Route, alg: &str, jwk: &Value, message: &str, signature_h
     Ok(true) => {
       obs.label("config-accepted");
       obs.nontrivial();
+      // the token route goes through JwsValidationItem::verify: an algorithm pinned on the key must equal the header's
+      if let (Route::Token, Some(pin)) = (route, jwk.get("alg").and_then(Value::as_str)) {
+        vensure!(
+          obs,
+          pin == alg,
+          "token-verified-despite-key-alg-pin",
+          "{what}: reported verified although the key is pinned to alg {pin:?} and the protected header names {alg:?}"
+        );
+      }
       match verdict {
         RefVerdict::Valid => {}
         // the verifiers select on the parameter family; a kty label that contradicts it is C18's subject
@@ -655,7 +713,16 @@ fn check_config(route: Route, alg: &str, jwk: &Value, message: &str, signature_h
         // The EC verifiers never read `crv` (an ES256 token verifies under its own key relabelled secp256k1).
         // The statement binds the check to the header's algorithm and the caller's key material, which is what
         // happens here; a contradictory curve label is recorded as a class, not as a violation.
-        RefVerdict::ValidCrvMislabelled => obs.label("config-accepted/crv-label-contradicts-alg"),
+        RefVerdict::ValidCrvMislabelled if matches!(SigAlg::from_jws_name(alg), Some(SigAlg::Es256 | SigAlg::Es256k)) => {
+          obs.label("config-accepted/crv-label-contradicts-alg")
+        }
+        // An OKP key says which algorithm its `x` belongs to through `crv` alone (X25519 and Ed25519 keys are both 32
+        // bytes): EdDSA must not verify under a key that declares another curve, or none.
+        RefVerdict::ValidCrvMislabelled => vfail!(
+          obs,
+          "eddsa-verifier-accepts-key-of-other-curve",
+          "{what}: accepted although the OKP key's crv does not name Ed25519"
+        ),
         // x and y of the wrong lengths whose concatenation happens to be the 64 bytes of the signer's point
         RefVerdict::Invalid
           if matches!(SigAlg::from_jws_name(alg), Some(SigAlg::Es256 | SigAlg::Es256k))
@@ -738,14 +805,21 @@ pub fn check(case: &Case, obs: &mut Obs) -> CheckResult {
 // ---------------------------------------------------------------------------------------------
 
 fn offered_strategy() -> impl Strategy<Value = Case> {
-  (c01_offer::offer_strategy(), 0u8..10, prop_oneof![3 => Just(true), 1 => Just(false)]).prop_map(|(spec, key_choice, verifier_ok)| {
+  (c01_offer::offer_strategy(), 0u8..16, prop_oneof![3 => Just(true), 1 => Just(false)]).prop_map(|(spec, key_choice, verifier_ok)| {
     let (token, detached) = c01_offer::render_offer(&spec);
     let header_alg = c01_offer::first_alg_name(&spec);
     let key_alg = match key_choice {
       0..=3 => None,
       4..=6 => Some(header_alg.unwrap_or("EdDSA").to_string()),
       7..=8 => Some(if header_alg == Some("EdDSA") { "ES256" } else { "EdDSA" }.to_string()),
-      _ => Some("eddsa".to_string()),
+      9 => Some("eddsa".to_string()),
+      // near misses of the header's name
+      10 => Some(header_alg.map(|a| a[..a.len().saturating_sub(1)].to_string()).unwrap_or_default()),
+      11 => Some(format!("{}K", header_alg.unwrap_or("ES256"))),
+      12 => Some(format!("{}-R", header_alg.unwrap_or("EdDSA"))),
+      13 => Some(format!("{} ", header_alg.unwrap_or("EdDSA"))),
+      14 => Some(String::new()),
+      _ => Some(header_alg.unwrap_or("EdDSA").to_lowercase()),
     };
     Case::Offered {
       form: spec.form,
@@ -826,6 +900,17 @@ fn config_table(alg: SigAlg, seed: u64, index: u64) -> (String, Vec<(String, Str
   row("valid", name, jwk.clone(), sig.clone());
   row("valid-key-alg-pinned", name, signer.public_jwk(Some(name)), sig.clone());
   row("key-alg-pinned-other", name, signer.public_jwk(Some("HS256")), sig.clone());
+  // pins that are near misses of the header's algorithm name: a proper prefix, an extension, another case, blank
+  for (m, pin) in [
+    ("key-alg-pinned-prefix", name[..name.len() - 1].to_string()),
+    ("key-alg-pinned-extension-K", format!("{name}K")),
+    ("key-alg-pinned-extension-R", format!("{name}-R")),
+    ("key-alg-pinned-lowercase", name.to_lowercase()),
+    ("key-alg-pinned-trailing-blank", format!("{name} ")),
+    ("key-alg-pinned-empty", String::new()),
+  ] {
+    row(m, name, signer.public_jwk(Some(&pin)), sig.clone());
+  }
   row("other-key", name, other.public_jwk(None), sig.clone());
   // signatures
   for len in [0usize, 1, 32, 63, 65, 96, 128] {
